@@ -4,7 +4,7 @@
    step and CommitPreserve.v for the invariant. *)
 From Coq Require Import List NArith Bool Lia.
 From OC Require Import Base.Bytes Model.Merge Model.CfgStore
-     Proofs.MergeProofs Proofs.PathProofs Proofs.PruneProofs Proofs.StoreProofs Proofs.CommitProofs Proofs.StoreFullProofs
+     Proofs.MergeProofs Proofs.TextPathProofs Proofs.PruneProofs Proofs.StoreProofs Proofs.CommitProofs Proofs.StoreFullProofs
      Proofs.CommitPreserve.
 Import ListNotations.
 Open Scope N_scope.
